@@ -492,12 +492,20 @@ func tblDamage(c *Ctx, tc tblCase, tape *simrt.Tape) (vs []tblV, evals int) {
 			if onRead {
 				mode = "verify-on-read"
 			}
-			rd, err := open(onRead)
-			if err != nil {
-				continue // detected when opening
+			var d string
+			panicked := safely(func() {
+				rd, err := open(onRead)
+				if err != nil {
+					return // detected when opening
+				}
+				defer rd.Close()
+				d = readEverything(rd, pairs)
+			})
+			if panicked {
+				// a panic serves no wrong value either; counted, not reported (no-panic is C18's statement, for concurrency)
+				c.Count("probe:panic-on-damaged-table", 1)
+				continue
 			}
-			d := readEverything(rd, pairs)
-			_ = rd.Close()
 			if d != "" {
 				add("damage-served-as-data|"+mode+"|"+whatKind(what), fmt.Sprintf("%s, %s: %s", what, mode, d))
 				return false
